@@ -116,7 +116,7 @@ def rule_encode_tag_arms(ctx):
     if len(ifs) != 1:
         raise AnalysisError('tag number chain not found in %s' % f.short)
     arms, orelse = if_chain(ifs[0])
-    remaining = set(range(0, 20000))
+    remaining = set(range(0, ctx.scale(20000, 300000)))
     narm = 0
     general = 0
     for test, body in arms + [(None, orelse)]:
@@ -590,7 +590,7 @@ def rule_integer_octets(ctx):
         return (v if v >= 0 else ~v).bit_length() // 8 + 1
     bad = None
     try:
-        for v in list(range(-33100, 33101)) + [s * 2 ** k + d for k in (23, 24, 31, 32, 63, 64) for s in (1, -1) for d in (-1, 0, 1)]:
+        for v in list(range(-ctx.scale(33100, 600000), ctx.scale(33100, 600000) + 1)) + [s * 2 ** k + d for k in (23, 24, 31, 32, 63, 64) for s in (1, -1) for d in (-1, 0, 1)]:
             got = _eval_size_function(f, {'value': v, 'signed': True, 'length': 0})
             if got != ref(v):
                 bad = (v, got, ref(v))
